@@ -26,6 +26,13 @@ type Batch struct {
 	GccRej []*ProgInfo // the C compiler refused (counted for C11)
 	Unsup  []*ProgInfo // signature the driver cannot call
 	bins   map[string]string
+	// Stop (optional) is polled before the driver is restarted after a death.
+	Stop func() bool
+	// MaxHangs bounds the watchdog periods one Run may spend (default 2): after
+	// that many programs that did not finish, the rest of the batch is not run
+	// (out[i] == nil, listed in NotRun).
+	MaxHangs int
+	NotRun   int
 	// CompileSeconds per configuration name.
 	CompileSeconds map[string]float64
 }
@@ -381,6 +388,7 @@ func (b *Batch) Run(cfg Config, script []byte, expect []int) (out [][]byte, cras
 	defer os.Remove(spath)
 	out = make([][]byte, len(expect))
 	from := 0
+	hangs := 0
 	for from < len(expect) {
 		cmd := exec.Command(bin, spath, "run", strconv.Itoa(from))
 		cmd.Env = append(os.Environ(), "ASAN_OPTIONS=detect_leaks=0:abort_on_error=0:allocator_may_return_null=1", "UBSAN_OPTIONS=print_stacktrace=0")
@@ -415,9 +423,21 @@ func (b *Batch) Run(cfg Config, script []byte, expect []int) (out [][]byte, cras
 		if k >= len(expect) {
 			return out, crashes, fmt.Errorf("driver %s died after the last program: %s", cfg.Name, head(se.String(), 5))
 		}
-		crashes = append(crashes, Crash{Prog: k, Partial: append([]byte{}, data...), Kind: classifyCrash(code, sig, se.String()), Stderr: head(se.String(), 25)})
+		kind := classifyCrash(code, sig, se.String())
+		crashes = append(crashes, Crash{Prog: k, Partial: append([]byte{}, data...), Kind: kind, Stderr: head(se.String(), 25)})
 		out[k] = nil
 		from = k + 1
+		if kind == "watchdog" {
+			hangs++
+		}
+		maxHangs := b.MaxHangs
+		if maxHangs <= 0 {
+			maxHangs = 2
+		}
+		if hangs >= maxHangs || (b.Stop != nil && b.Stop()) {
+			b.NotRun += len(expect) - from
+			break
+		}
 	}
 	return out, crashes, nil
 }
